@@ -944,3 +944,23 @@ package eventbus
 //@   ensures [C15.names] {C15} bus != nil && upcast != nil ==> cnt(registerCall) == 1 && lastarg(registerCall, 1, String) == evName(typeOf(From)) && lastarg(registerCall, 2, String) == evName(typeOf(To))
 //@        && lastarg(registerCall, 0) == bus.upcastRegistry && err == lastres(registerCall, Iface)
 //@   ensures [C16.nil] bus == nil || upcast == nil ==> err != nil && cnt(registerCall) == 0
+
+// ---------------------------------------------------------------- subscribe options
+// The four option literals the package hands out: each sets exactly its flag.
+//@ func Once$1
+//@   props C04 C01
+//@   requires h != nil
+//@   ensures [C04.opt.once] h.once && h.async == old(h.async) && h.sequential == old(h.sequential) && h.filter == old(h.filter)
+//@ func Async$1
+//@   props C06 C01
+//@   requires h != nil
+//@   ensures [C06.opt.async] h.async && h.once == old(h.once) && h.sequential == old(h.sequential) && h.filter == old(h.filter)
+//@ func Sequential$1
+//@   props C07 C01
+//@   requires h != nil
+//@   ensures [C07.opt.sequential] h.sequential && h.once == old(h.once) && h.async == old(h.async) && h.filter == old(h.filter)
+// Input domain: the predicate is not nil (a nil filter function would be called).
+//@ func WithFilter$1
+//@   props C01
+//@   requires h != nil && predicate != nil
+//@   ensures [C01.opt.filter] payload(h.filter) == predicate && dynType(h.filter) == typeOf(func(T) bool) && h.once == old(h.once) && h.async == old(h.async) && h.sequential == old(h.sequential)
